@@ -20,6 +20,18 @@ def main():
     core.ensure_env()
     seed = int(os.environ.get("VERIF_SEED", "20260926"))
     mod = importlib.import_module("vp.props.%s" % prop.lower())
+    # safety net: a check must terminate.  Hangs of the code under test are caught per call (SIGALRM in the
+    # harness); this watchdog only fires if the machinery itself is stuck (e.g. a dead pool worker).
+    import threading
+    limit = int(os.environ.get("VERIF_WATCHDOG_S", "1800" if tier == "quick" else "14400"))
+
+    def _expired():
+        sys.stdout.write("INTERNAL-ERROR: check %s %s did not finish within %d s (watchdog)\n" % (prop, tier, limit))
+        sys.stdout.flush()
+        os.killpg(os.getpgid(0), 9) if os.environ.get("VERIF_WATCHDOG_KILLPG") else os._exit(2)
+    wd = threading.Timer(limit, _expired)
+    wd.daemon = True
+    wd.start()
     try:
         return mod.run(tier, seed, replay)
     except core.InternalError as e:
